@@ -6,7 +6,7 @@ import struct
 
 from hypothesis import strategies as st
 
-from vf.core import Fails, Target, attempt, bx, hx, raised, attempt_owned
+from vf.core import Fails, Target, attempt, bx, hx, raised, attempt_owned, attempt_twice
 from vf.env import sock as sockenv
 from vf.env.sock import NonTermination, ScriptedSocket, cut_positions
 from vf.ref import wire as ref
@@ -668,7 +668,7 @@ def check_getheaders(p2p, case, f, cls):
     cls.extend(count_classes("getheaders", n))
     cls.append("getheaders-stop-" + ("zero" if case["stop"] == "zero" else "hash"))
     sfx = form_suffix(n)
-    built = attempt(p2p.getheaders_payload, pv, n, hashes, stop)
+    built = attempt_twice(f, "codec/getheaders/second-build-with-same-arguments-differs", p2p.getheaders_payload, pv, n, hashes, stop)
     want = ref.build_getheaders(pv, hashes, stop)
     if not f.expect(isinstance(built, (bytes, bytearray)) and bytes(built) == want, "codec/getheaders/build-ne-reference-layout" + sfx, f"got {short(built, 48)} want {short(want, 48)}"):
         if not isinstance(built, (bytes, bytearray)):
@@ -718,7 +718,7 @@ def check_inv(p2p, case, f, cls):
         one = attempt(p2p.parse_inventory, invs[0])
         ok = isinstance(one, dict) and str(one.get("type_id", "")).upper() == items[0][0] and as_bytes(one.get("hash")) == items[0][1]
         f.expect(ok, "codec/inv/parse_inventory-ne-built", f"{one!r} built from {items[0][0]} {items[0][1].hex()}"[:300])
-    built = attempt(p2p.inv_payload, n, invs)
+    built = attempt_twice(f, "codec/inv/second-build-with-same-arguments-differs", p2p.inv_payload, n, invs)
     want = ref.build_inv([(ref.INV_TYPES[name], h) for name, h in items])
     if not f.expect(isinstance(built, (bytes, bytearray)) and bytes(built) == want, "codec/inv/build-ne-reference-layout" + sfx, f"got {short(built, 48)} want {short(want, 48)}"):
         if not isinstance(built, (bytes, bytearray)):
@@ -761,7 +761,7 @@ def check_addr(p2p, case, f, cls):
             f.add("codec/addr/network_ip_addr-ne-reference-layout", f"got {short(b, 40)} want {short(want, 40)}")
             return
         nets.append(bytes(b))
-    built = attempt(p2p.addr_payload, n, nets)
+    built = attempt_twice(f, "codec/addr/second-build-with-same-arguments-differs", p2p.addr_payload, n, nets)
     want = ref.build_addr(entries)
     if not f.expect(isinstance(built, (bytes, bytearray)) and bytes(built) == want, "codec/addr/build-ne-reference-layout" + sfx, f"got {short(built, 48)} want {short(want, 48)}"):
         if not isinstance(built, (bytes, bytearray)):
